@@ -112,3 +112,91 @@ def symmetrises(st, name: str) -> bool:
         return len(a) == 2 and name in a and (f"{name}.T" in a or
                                               f"{name}.transpose()" in a)
     return False
+
+
+def negated_flag(test, flags) -> bool:
+    """`not F`, `F is False`, `F == False`, `F is not True` for F in flags (source
+    texts such as 'self.directed', 'directed')."""
+    if isinstance(test, ast.UnaryOp) and isinstance(test.op, ast.Not):
+        return ast.unparse(test.operand) in flags
+    if isinstance(test, ast.Compare) and len(test.ops) == 1 and \
+            ast.unparse(test.left) in flags and \
+            isinstance(test.comparators[0], ast.Constant):
+        v = test.comparators[0].value
+        op = test.ops[0]
+        return (v is False and isinstance(op, (ast.Is, ast.Eq))) or \
+            (v is True and isinstance(op, (ast.IsNot, ast.NotEq)))
+    return False
+
+
+def mirrors_edge_list(st) -> str | None:
+    """`X = <concat>(X, X[:, [1, 0]] ...)`: the edge list X is extended by its
+    column-swapped copy.  Returns X."""
+    if not (isinstance(st, ast.Assign) and len(st.targets) == 1 and
+            isinstance(st.targets[0], ast.Name)):
+        return None
+    x = st.targets[0].id
+    swapped = plain = False
+    for n in ast.walk(st.value):
+        if isinstance(n, ast.Subscript) and isinstance(n.value, ast.Name) and \
+                n.value.id == x and isinstance(n.slice, ast.Tuple) and \
+                len(n.slice.elts) == 2:
+            c = ast.unparse(n.slice.elts[1]).replace(" ", "")
+            r = ast.unparse(n.slice.elts[0]).replace(" ", "")
+            if r == ":" and c in ("[1,0]", "::-1", "(1,0)"):
+                swapped = True
+    if isinstance(st.value, ast.Call):
+        for a in ast.walk(st.value):
+            if isinstance(a, ast.Call):
+                for arg in a.args:
+                    els = arg.elts if isinstance(arg, (ast.Tuple, ast.List)) else [arg]
+                    if any(isinstance(e, ast.Name) and e.id == x for e in els):
+                        plain = True
+    return x if swapped and plain else None
+
+
+def single_defs(fn_node) -> dict:
+    """name -> value for locals assigned exactly once in the function (simple
+    `name = value` statements anywhere in its body)."""
+    cnt, val = {}, {}
+    for n in ast.walk(fn_node):
+        if isinstance(n, ast.Assign):
+            for t in n.targets:
+                for x in ast.walk(t):
+                    if isinstance(x, ast.Name):
+                        cnt[x.id] = cnt.get(x.id, 0) + 1
+                        if len(n.targets) == 1 and x is t:
+                            val[x.id] = n.value
+        elif isinstance(n, (ast.AugAssign, ast.AnnAssign)) and isinstance(n.target, ast.Name):
+            cnt[n.target.id] = cnt.get(n.target.id, 0) + 2
+        elif isinstance(n, (ast.For, ast.comprehension)):
+            for x in ast.walk(n.target):
+                if isinstance(x, ast.Name):
+                    cnt[x.id] = cnt.get(x.id, 0) + 2
+    return {k: v for k, v in val.items() if cnt.get(k) == 1}
+
+
+def inline_locals(fn_node, expr, depth=5, defs=None):
+    """`expr` with every single-definition local replaced by its value
+    (recursively): the value an argument has, independent of what the
+    intermediate locals are called.  Returns an ast expression."""
+    import copy
+    defs = single_defs(fn_node) if defs is None else defs
+
+    class T(ast.NodeTransformer):
+        def __init__(self, d):
+            self.d = d
+
+        def visit_Name(self, n):
+            if isinstance(n.ctx, ast.Load) and n.id in defs and self.d > 0:
+                return T(self.d - 1).visit(copy.deepcopy(defs[n.id]))
+            return n
+    return T(depth).visit(copy.deepcopy(expr))
+
+
+def strip_int(e):
+    """int(x) / float(x) wrappers are irrelevant for identity of a quantity."""
+    while isinstance(e, ast.Call) and isinstance(e.func, ast.Name) and \
+            e.func.id in ("int", "float") and len(e.args) == 1:
+        e = e.args[0]
+    return e
